@@ -32,10 +32,10 @@ partial def parseOps : List String → Option (List FrameReg.Op)
   | _ => none
 
 /-- a name on the wire: `~` = None, `-` = the empty string, otherwise the code points joined by commas -/
-def nameOf (tok : String) : Option (Option String) :=
+def nameOf (tok : String) : Option (Option (List Char)) :=
   if tok = "~" then some none
-  else if tok = "-" then some (some "")
-  else ((tok.splitOn ",").mapM (fun (t : String) => t.toNat?)).map (fun cs => some (String.ofList (cs.map Char.ofNat)))
+  else if tok = "-" then some (some [])
+  else ((tok.splitOn ",").mapM (fun (t : String) => t.toNat?)).map (fun cs => some (cs.map Char.ofNat))
 
 def butcherOf : String → Option (List (Int × Int) × List Int × Int)
   | "euler" => some (butcherC_euler, butcherW_euler, butcherD_euler)
